@@ -18,6 +18,7 @@ EXPLANATION = (
     "encoder output or a caller value that passed the validator, whose per-key rows equal the decoder's; (DECODE) Ok only behind the signature gate. "
     "`Accepted again by the decoder` follows from validator row = decoder row (C02/C08) and the shared layout (C04). Not decided: that sign_v4 and verify_v4 of one "
     "back-end are inverse (library)."
+    " Re-uses C09 BUILD (builder size slack) and C10 UNCOMP/FROM/DIGEST (node id = keccak256 of the uncompressed key)."
 )
 TRUSTED = ["sign_v4/verify_v4 of each crypto library are inverse on the same digest", "alias resolution and event extraction of the kernel"]
 WITNESSES = ['W1a', 'W1b', 'W1c', 'W1d', 'W2a', 'W2b', 'W2c', 'W3', 'W6']  # compile-fail witnesses run in the thorough tier (witness/src/lib.rs)
@@ -465,3 +466,15 @@ def shadow_rule(ctx, report, infos):
                  "CombinedKey reads the secp256k1 entry before the ed25519 one: a record signed by an ed25519 CombinedKey that also carries a valid secp256k1 entry "
                  "(builder pair, insert, remove_insert) is handed out with Ok although verify() is false; no mutator or build() checks that the record's own "
                  "public_key() is the signer's key", fn=f.path, sp=f.span, config=cfg)
+
+
+_own_run = run
+
+
+def run(ctx, report):
+    _own_run(ctx, report)
+    from common import Only
+    from rules import c09, c10
+    c09.run(ctx, Only(report, {"BUILD": "SIZE-BUILD"}))
+    c10.run(ctx, Only(report, {"UNCOMP": "UNCOMP", "FROM": "FROM", "DIGEST": "DIGEST"}))
+
